@@ -24,6 +24,10 @@
 (*      belongs to another thread and has not been disconnected by anybody:*)
 (*      [k |-> "he_teardown", by, victim, intr] is that disconnect at the  *)
 (*      moment it holds the lock, `victim` holding the slot then.          *)
+(*  (g) the library's own reaction to a packet (a disconnect packet of the   *)
+(*      old session, say) never takes down a connection that a listener    *)
+(*      made in the meantime: "teardown" events carry src = "react" for    *)
+(*      disconnects issued by a reactor's react().                         *)
 (* Events: [k |-> "call"|"ret", t, op, r], [k |-> "check", t, active],      *)
 (*   [k |-> "effect", t, what], [k |-> "start", who], [k |-> "io", t],      *)
 (*   [k |-> "disc_point", t] (a disconnect call acquired the lock),         *)
@@ -107,6 +111,8 @@ Step ==
        [] e.k = "teardown" ->
             IF e.by \in DOMAIN beforeRaise /\ e.victim # e.by /\ e.victim \in beforeRaise[e.by] /\ ~e.intr
             THEN Reject("the error handling of a failed connection tore down a connection that had been made before the failure")
+            ELSE IF e.src = "react" /\ e.victim # e.by /\ ~e.intr
+            THEN Reject("the default reaction to a packet of an ended connection tore down the connection a listener had made in the meantime")
             ELSE AdvK /\ UNCHANGED <<alive, lastIo, past, calls, mustEnd>>
        [] e.k = "he_teardown" ->
             IF e.victim # e.by /\ ~e.intr
